@@ -37,7 +37,9 @@ LEVEL = {
                "tools pass a scoped iterator they still need only through a borrowed view; (R07.5) no finaliser.",
     "not_decided": "that items taken through the handle are the remaining ones, once, in order (value level, C01 "
                    "residual); a user deliberately calling athrow(GeneratorExit) on the handle.",
-    "technique": "static analysis: who-may-call / ownership rule over resolved attribute uses",
+    "technique": "static analysis: who-may-call / ownership rule over resolved attribute uses; R07.2/R07.3 by abstract "
+                 "evaluation of the handle's construction and closing over an object model (with / without asend-athrow; "
+                 "run-time generator state unknown)",
 }
 
 BORROW_CLASSES = ["asynctools._BorrowedAsyncIterator", "asynctools._ScopedAsyncIterator"]
